@@ -858,7 +858,7 @@ static int explore(vf::Args const& a)
     .emit();
   if (!exhaustive) vf::J("cap").s("why", cfg_string() + ": execution/time cap hit with " + std::to_string(stack.size()) + " branches unexplored").emit();
   static int sample_once = 0;
-  if (!sample_once++) vf::J("sample").s("config", cfg_string()).u("executions", executions).u("canonical_state_choice_pairs", g_visited.size()).emit();
+  if (g_cfg.ops.size() >= 3 && executions > 100 && !sample_once++) vf::J("sample").s("config", cfg_string()).u("executions", executions).u("canonical_state_choice_pairs", g_visited.size()).emit();
   return 0;
 }
 
